@@ -3,14 +3,18 @@ package monitors
 import (
 	"fmt"
 	"math/rand/v2"
+	"net/netip"
 	"sync/atomic"
 	"time"
+
+	"github.com/scionproto/scion/pkg/addr"
 
 	"example.com/scion-time/core/server"
 	"example.com/scion-time/core/timebase"
 	"example.com/scion-time/net/ntp"
 
 	"verif/harness/internal/ev"
+	"verif/harness/internal/peer"
 )
 
 // C06 — server replies are correct in basic and interleaved mode for every history.
@@ -494,10 +498,16 @@ func init() {
 			if r.Only() != "" && r.Only() != id {
 				continue
 			}
+			if r.Only() != "" && r.Only()[0] == 'l' {
+				break
+			}
 			c06History(r, id, r.Rng("c06/"+id), nOps)
 			if r.NumViolations() > 20 {
 				break
 			}
+		}
+		if r.Only() == "" || r.Only()[0] == 'l' {
+			c06Listeners(r)
 		}
 		r.Assume("hook level: handleRequest/updateTXTimestamp called as the listeners call them (update passes back the handler's software transmit time when no kernel timestamp could be read); below the client capacity")
 		r.Assume("a kernel transmit timestamp equal (as NTP timestamp) to the software time is not generated: the interface cannot tell it from 'not read'")
@@ -505,4 +515,140 @@ func init() {
 			"request shapes basic / interleaved referring to an own earlier reply / to another client's reply / to an unknown origin / origin on record with rx==tx; transmit-timestamp updates later / equal to rx / earlier / lost, in order, reordered after later requests, repeated. "+
 			"Oracle = transition predicates from the statement on (store snapshot before, operation, reply, snapshot after) plus a shadow map of the true transmit time of every reply. distinct_nontrivial = histories run (seed-distinct); classes = reply/update behaviours observed", 10)
 	})
+}
+
+// ---------------------------------------------------------------------------------------
+// listener leg: the same reply predicates on datagrams of the real IP and SCION listeners.
+// The monitor cannot see the store here; what it can see is every reply and, because it
+// runs on the same machine clock, when each reply reached it.
+
+func c06Listeners(r *ev.Run) {
+	srv := blockIP(r, 6, 1)
+	tgt, err := StartTarget("plain", "-ip", srv.String(), "-kinds", "ip,scion")
+	if err != nil {
+		r.Inconclusive("target: " + err.Error())
+		return
+	}
+	defer tgt.Kill()
+	rng := r.Rng("c06/listeners")
+	type transport struct {
+		name   string
+		dst    netip.AddrPort
+		wrap   func(p []byte, src netip.Addr, sport uint16) []byte
+		unwrap func(b []byte) []byte
+	}
+	lia, _ := addr.ParseIA("1-ff00:0:110")
+	trs := []transport{
+		{"ip", netip.AddrPortFrom(srv, 123), func(p []byte, _ netip.Addr, _ uint16) []byte { return p }, func(b []byte) []byte { return b }},
+		{"scion", netip.AddrPortFrom(srv, 10123), func(p []byte, src netip.Addr, sport uint16) []byte {
+			b, _ := (&peer.SCIONPkt{SrcIA: lia, DstIA: lia, SrcHost: src, DstHost: srv, SrcPort: sport, DstPort: 10123, Payload: p}).Serialize()
+			return b
+		}, scionUnwrap},
+	}
+	for ti, tr := range trs {
+		for ci := 0; ci < r.Pick(6, 60); ci++ {
+			id := fmt.Sprintf("l.%s.%d", tr.name, ci)
+			if r.Only() != "" && r.Only() != id {
+				continue
+			}
+			cli := blockIP(r, 6, 10+ti*100+ci%90)
+			uc, err := peer.NewUDPClient(cli)
+			if err != nil {
+				r.Inconclusive(err.Error())
+				return
+			}
+			type rep struct {
+				f      peer.NTPFields
+				at     time.Time // when the reply reached the monitor
+				sentAt time.Time
+				inter  bool
+			}
+			var hist []rep
+			seenRX := map[uint64]bool{}
+			var trace []string
+			for step := 0; step < r.Pick(40, 120); step++ {
+				req := peer.NTPFields{LVM: 0x23, Transmit: peer.UniqueTime64()}
+				wantInter := false
+				var ref *rep
+				if len(hist) > 0 && rng.IntN(3) != 0 {
+					// interleaved request referring to an earlier reply (mostly the latest)
+					ref = &hist[len(hist)-1]
+					if rng.IntN(4) == 0 {
+						ref = &hist[rng.IntN(len(hist))]
+					}
+					req.Origin = ref.f.Receive
+					req.Receive = peer.ToNTP64(ref.at)
+					wantInter = true
+				}
+				sent := time.Now()
+				if err := uc.Send(tr.dst, tr.wrap(req.Bytes(), cli, uc.Local().Port())); err != nil {
+					break
+				}
+				_, hit := uc.ReadUntil(3*time.Second, func(d peer.Datagram) bool {
+					f, ok := peer.ParseNTP(tr.unwrap(d.Data))
+					return ok && (f.Origin == req.Transmit || (wantInter && f.Origin == req.Receive))
+				})
+				at := time.Now()
+				r.Eval(1)
+				if hit == nil {
+					r.Violation(tr.name+"-listener|missing-reply:valid request not answered", id, map[string]any{"trace": trace})
+					break
+				}
+				f, _ := peer.ParseNTP(tr.unwrap(hit.Data))
+				interleaved := wantInter && f.Origin == req.Receive
+				trace = append(trace, fmt.Sprintf("req(interleaved=%v origin=%x) -> reply(origin=%x rx=%x tx=%x)", wantInter, req.Origin, f.Origin, f.Receive, f.Transmit))
+				w := map[string]any{"trace": trace}
+				if len(trace) > 12 {
+					w["trace"] = trace[len(trace)-12:]
+				}
+				if f.LVM&0x3f != 4<<3|4 || f.Stratum != 1 {
+					r.Violation(tr.name+"-listener|wrong-reply:not a version-4 server-mode stratum-1 packet", id, w)
+				}
+				if seenRX[f.Receive] {
+					r.Violation(tr.name+"-listener|wrong-reply:receive timestamp served twice to one client", id, w)
+				}
+				seenRX[f.Receive] = true
+				// the server's receive timestamp lies between our send and our receive (same clock)
+				if f.Receive < peer.ToNTP64(sent.Add(-time.Millisecond)) || f.Receive > peer.ToNTP64(at.Add(time.Millisecond)) {
+					r.Violation(tr.name+"-listener|wrong-reply:receive timestamp is not the time the request was received", id, w)
+				}
+				if interleaved {
+					// transmit = the kernel transmit time of the earlier reply: not before the software time that
+					// reply carried, not after the moment that reply reached the monitor, later than its receive time
+					// (the kernel stamps the datagram after the handler read the clock for the software time)
+					if f.Transmit <= ref.f.Transmit && !ref.inter {
+						r.Violation(tr.name+"-listener|wrong-reply:interleaved transmit timestamp is not a kernel transmit time later than the software time of the reply it belongs to", id, w)
+					}
+					if f.Transmit > peer.ToNTP64(ref.at.Add(50*time.Microsecond)) {
+						r.Violation(tr.name+"-listener|wrong-reply:interleaved transmit timestamp later than the arrival of the reply it belongs to", id, w)
+					}
+					if f.Transmit <= ref.f.Receive {
+						r.Violation(tr.name+"-listener|wrong-reply:interleaved transmit timestamp not later than the receive timestamp it belongs to", id, w)
+					}
+					r.Class(tr.name + "-listener:interleaved-reply")
+				} else {
+					if f.Origin != req.Transmit {
+						r.Violation(tr.name+"-listener|wrong-reply:origin is neither the request's transmit nor its receive timestamp", id, w)
+					}
+					if f.Transmit <= f.Receive {
+						r.Violation(tr.name+"-listener|wrong-reply:basic transmit timestamp not later than receive timestamp", id, w)
+					}
+					if f.Transmit > peer.ToNTP64(at.Add(time.Millisecond)) {
+						r.Violation(tr.name+"-listener|wrong-reply:basic transmit timestamp in the future", id, w)
+					}
+					if wantInter {
+						r.Class(tr.name + "-listener:basic-reply-to-interleaved-request(record replaced or evicted)")
+					} else {
+						r.Class(tr.name + "-listener:basic-reply")
+					}
+				}
+				hist = append(hist, rep{f: f, at: at, sentAt: sent, inter: interleaved})
+				if len(hist) > 12 {
+					hist = hist[1:]
+				}
+			}
+			uc.Close()
+			r.Distinct(id)
+		}
+	}
 }
